@@ -633,7 +633,16 @@ class SE:
         handled = []
         for cl in IR_CLASSES:
             m = self.ct.find(cl, name, 'method')
-            if m is None: continue
+            if m is None:
+                # a static method reached through an instance: same body, no receiver
+                m = self.ct.find(cl, name, 'static')
+                if m is None:
+                    if self.ct.find(cl, name, 'classmethod') is not None: raise Unsupported('classmethod %s through an instance' % name)
+                    continue
+                handled.append(cl)
+                s2 = st.fork(); s2.pc.append(c.cls(recv[1]) == c.C[cl])
+                if self.sat(s2): self.call_fn(s2, m, list(args), cont, kw)
+                continue
             handled.append(cl)
             s2 = st.fork(); s2.pc.append(c.cls(recv[1]) == c.C[cl])
             if self.sat(s2): self.call_fn(s2, m, [recv] + args, cont, kw)
